@@ -71,6 +71,10 @@ func isBatchMode(md gqlgen.Modes, typ, field string) bool {
 	return m.Kind == "batch" || (m.Kind == "fallback" && m.UseBatch)
 }
 
+// batchElsewhere counts the errors of whole-batch failures reported at another list index than that
+// of the failing source (the unit's first destination: theorem whole_batch_failure_at_first_destination).
+var batchElsewhere int
+
 // texts the harness's resolvers raise
 var injected = regexp.MustCompile(`E\d*\.[a-z]|S\.f`)
 
@@ -140,6 +144,7 @@ func checkError(obs gqlgen.Observed, fs []gqlgen.RefFailure, md gqlgen.Modes, qn
 			goto pathok
 		}
 		if isBatchMode(md, f.Type, f.Field) && pathSim(f.Path, obs.Path) {
+			batchElsewhere++
 			goto pathok
 		}
 	}
@@ -383,6 +388,9 @@ func main() {
 		}
 	}
 	flush(len(cases))
+	for i := 0; i < batchElsewhere; i++ {
+		run.Hist("whole-batch-failure-reported-at-first-destination-not-at-failing-source")
+	}
 	run.Finish()
 }
 
